@@ -328,6 +328,26 @@ def in_nondefault_case(n):
     return False
 
 
+def run_batched(cx, lines, component, per_batch=12, workers=8):
+    """the request stream is a sequence of groups, each starting with a `ctx` request; groups are dealt to several harness
+    processes so that no single process runs for long and all cores are used"""
+    import concurrent.futures
+    groups, cur = [], []
+    for l in lines:
+        if l.split()[2] == "ctx" and cur:
+            groups.append(cur); cur = []
+        cur.append(l)
+    if cur:
+        groups.append(cur)
+    batches = [sum(groups[i:i + per_batch], []) for i in range(0, len(groups), per_batch)]
+    cx.harness(HARNESS)          # build once, before the pool starts
+    res = {}
+    with concurrent.futures.ThreadPoolExecutor(max_workers=workers) as ex:
+        for r in ex.map(lambda b: cx.run_impl(HARNESS, b, component=component, timeout=1500), batches):
+            res.update(r)
+    return res
+
+
 def run_rt(cx, laws=("roundtrip", "independent")):
     from vlib import treegen
     rng = cx.sub_rng("rt")
@@ -351,7 +371,7 @@ def run_rt(cx, laws=("roundtrip", "independent")):
             meta[len(lines) - 1] = ("cross", s, (x, j, f))
             lines.append("%d rt leakcheck" % len(lines))
             meta[len(lines) - 1] = ("leak", s, (x, j, f))
-    ri = cx.run_impl(HARNESS, lines, component="rt", timeout=1200)
+    ri = run_batched(cx, lines, "rt")
     pending = []
     xmlitems = []
     for i, l in enumerate(lines):
